@@ -112,7 +112,8 @@ class Gen:
         self.table = {}
         self.feat = dict(bits=True, data=True, marker=True, regex=True, eos=True, ref=True, refsel=True, seq=True, opt=True,
                          move=True, em=True, clsopts=True, lambdas=True, offset_atoms=False, codegen_opts=False,
-                         begins_ref=True, defaults=True, regex_excl=False, shared_selector=False, generic_unpack=False, neg_moves=False)
+                         begins_ref=True, defaults=True, regex_excl=False, shared_selector=False, generic_unpack=False, neg_moves=False,
+                         move_rate=0.15)
         if features:
             self.feat.update(features)
 
@@ -287,7 +288,7 @@ class Gen:
         ref = rng.choice(refs)
         spelled = 'aligned' if al else 'at'
         if al:
-            arg = ('const', rng.choice([1, 2, 3, 4, 8]))
+            arg = ('const', rng.choice([1, 2, 3, 4, 6, 8]))
         else:
             if ref == 'RCur':
                 spelled = rng.choice(['shift', 'at'])
@@ -320,7 +321,7 @@ class Gen:
             kind = self.pick([('elem', 6), ('bits', 1.2 if (self.feat['bits'] and pc['align'] is None) else 0),
                               ('seq', 2 if self.feat['seq'] else 0), ('opt', 1.2 if (self.feat['opt'] and ints) else 0),
                               ('em', 0.3 if self.feat['em'] else 0)])
-            mv = self.move(ints) if (self.feat['move'] and rng.random() < 0.15) else None
+            mv = self.move(ints) if (self.feat['move'] and rng.random() < self.feat['move_rate']) else None
             if kind == 'bits':
                 total = rng.choice([8, 8, 16, 24])
                 ws = []
